@@ -91,11 +91,12 @@ Section Sim.
   Qed.
 
   (* ---- the continuation read off the stack ------------------------------------------------------ *)
-  Variable fin : list unt -> term.
+  (* the terminal result once the root frame is done; it is told the root declaration *)
+  Variable fin : decl -> list unt -> term.
 
-  Fixpoint Kopen (opens : list entry) (extra : list inst) (us : list unt) : res :=
+  Fixpoint Kopen (opens : list entry) (ld : decl) (extra : list inst) (us : list unt) : res :=
     match opens with
-    | [] => ([], fin us)
+    | [] => ([], fin ld us)
     | p :: b =>
         match e_node p with
         | None => ([], TPanic 0)
@@ -104,7 +105,7 @@ Section Sim.
               let i := I nm ids (ks0 ++ extra ++ ks) in
               app_res (if d_tgt (e_decl p) then [i] else [])
                 (mbind (occl (e_decl p) (S (length us1)) (S (e_occ p)) us1)
-                   (fun is us2 => Kopen b (i :: is) us2)))
+                   (fun is us2 => Kopen b (e_decl p) (i :: is) us2)))
         end
     end.
 
@@ -112,7 +113,7 @@ Section Sim.
     match stk with
     | [] => ([], TPanic 0)
     | top :: opens =>
-        mbind (occl (e_decl top) (S (length us)) (e_occ top) us) (fun is us1 => Kopen opens is us1)
+        mbind (occl (e_decl top) (S (length us)) (e_occ top) us) (fun is us1 => Kopen opens (e_decl top) is us1)
     end.
 
   Definition Kst (st : mstate) : res := app_res (tl_of (m_tgt st)) (Ktop (m_stk st) (m_rest st)).
@@ -124,34 +125,34 @@ Section Sim.
     - apply IH. exact H.
   Qed.
 
-  Lemma Kopen_sibling : forall q b extra us nq iq kq k,
+  Lemma Kopen_sibling : forall q b ld ld' extra us nq iq kq k,
     e_node q = Some (I nq iq kq) -> nth_error (d_kids (e_decl q)) (S (e_cur q)) = Some k ->
-    Kopen (q :: b) extra us =
+    Kopen (q :: b) ld extra us =
     mbind (occl k (S (length us)) 0 us) (fun is1 us1 =>
-      Kopen (E (e_decl q) (Some (I nq iq (kq ++ extra))) (S (e_cur q)) (e_occ q) :: b) is1 us1).
+      Kopen (E (e_decl q) (Some (I nq iq (kq ++ extra))) (S (e_cur q)) (e_occ q) :: b) ld' is1 us1).
   Proof.
-    intros q b extra us nq iq kq k Hn Hk. cbn [Kopen e_node e_decl e_cur e_occ]. rewrite Hn.
+    intros q b ld ld' extra us nq iq kq k Hn Hk. cbn [Kopen e_node e_decl e_cur e_occ]. rewrite Hn.
     rewrite (skipn_nth _ _ _ _ Hk), mbind_seq_cons.
     apply mbind_ext. intros is1 us1. apply mbind_ext. intros is2 us2.
     rewrite <- !app_assoc. reflexivity.
   Qed.
 
-  Lemma Kopen_last : forall q b extra us nq iq kq,
+  Lemma Kopen_last : forall q b ld extra us nq iq kq,
     e_node q = Some (I nq iq kq) -> length (d_kids (e_decl q)) <= S (e_cur q) ->
-    Kopen (q :: b) extra us =
+    Kopen (q :: b) ld extra us =
     app_res (if d_tgt (e_decl q) then [I nq iq (kq ++ extra)] else [])
       (mbind (occl (e_decl q) (S (length us)) (S (e_occ q)) us)
-         (fun is us2 => Kopen b (I nq iq (kq ++ extra) :: is) us2)).
+         (fun is us2 => Kopen b (e_decl q) (I nq iq (kq ++ extra) :: is) us2)).
   Proof.
-    intros q b extra us nq iq kq Hn Hl. cbn [Kopen]. rewrite Hn.
+    intros q b ld extra us nq iq kq Hn Hl. cbn [Kopen]. rewrite Hn.
     rewrite skipn_all2 by exact Hl. rewrite mbind_seq_nil. rewrite app_nil_r. reflexivity.
   Qed.
 
-  Lemma Kopen_commit : forall q b i is us,
+  Lemma Kopen_commit : forall q b ld ld' i is us,
     (exists nq iq kq, e_node q = Some (I nq iq kq)) ->
-    Kopen (commit q (Some i) :: b) is us = Kopen (q :: b) (i :: is) us.
+    Kopen (commit q (Some i) :: b) ld is us = Kopen (q :: b) ld' (i :: is) us.
   Proof.
-    intros q b i is us (nq & iq & kq & Hn). unfold commit. cbn [Kopen e_node e_decl e_cur e_occ add_kid]. rewrite Hn. cbn [add_kid].
+    intros q b ld ld' i is us (nq & iq & kq & Hn). unfold commit. cbn [Kopen e_node e_decl e_cur e_occ add_kid]. rewrite Hn. cbn [add_kid].
     apply mbind_ext. intros ks us1. rewrite <- !app_assoc. reflexivity.
   Qed.
 
@@ -232,7 +233,7 @@ Section Sim.
       app_res (tl_of tgt') (Ktop stk' us) =
       app_res (tl_of tgt) (app_res (if d_tgt (e_decl p) then [I nm ids ks] else [])
         (mbind (occl (e_decl p) (S (length us)) (S (e_occ p)) us)
-           (fun is us2 => Kopen b (I nm ids ks :: is) us2))).
+           (fun is us2 => Kopen b (e_decl p) (I nm ids ks :: is) us2))).
   Proof.
     induction b as [|q b' IH]; intros p tgt us nm ids ks Hn Hwf Hop Htp Hq Hbot.
     - (* only the root frame *)
@@ -296,8 +297,8 @@ Section Sim.
       + (* maximum reached: pop *)
         rewrite (max_then_min try_leaf _ _ Hwf Elt).
         assert (HK : mbind (occl (e_decl p) (S (length us)) (S (e_occ p)) us)
-                       (fun is us2 => Kopen (q :: b') (I nm ids ks :: is) us2) =
-                     Kopen (q :: b') [I nm ids ks] us).
+                       (fun is us2 => Kopen (q :: b') (e_decl p) (I nm ids ks :: is) us2) =
+                     Kopen (q :: b') (e_decl p) [I nm ids ks] us).
         { rewrite mbind_occ_S, Elt. cbn [andb]. rewrite (max_then_min try_leaf _ _ Hwf Elt). reflexivity. }
         rewrite HK.
         assert (Hd0 : e_decl q0 = e_decl q) by (rewrite Hq0; reflexivity).
@@ -318,7 +319,7 @@ Section Sim.
               cbn [map e_decl]. apply tp_push; [eapply nth_error_In; eauto|].
               destruct Htp as [_ Htp]. exact Htp. }
           { rewrite Hrhs. do 2 f_equal. cbn [Ktop e_decl e_occ].
-            rewrite (Kopen_sibling q b' [I nm ids ks] us nq iq kq k Hqn Ek).
+            rewrite (Kopen_sibling q b' (e_decl p) k [I nm ids ks] us nq iq kq k Hqn Ek).
             rewrite Hq0. reflexivity. }
         * (* q's instance is complete as well *)
           apply Nat.ltb_ge in Esib.
@@ -332,7 +333,7 @@ Section Sim.
           { intros Hb. specialize (Hqbot Hb). unfold is_bottom in *. rewrite Hq0. exact Hqbot. }
           exists stk', tgt'. split; [exact Hr|]. split; [exact Hinv|].
           rewrite HKr, Hrhs. do 2 f_equal. rewrite Hd0.
-          rewrite (Kopen_last q b' [I nm ids ks] us nq iq kq Hqn Esib).
+          rewrite (Kopen_last q b' (e_decl p) [I nm ids ks] us nq iq kq Hqn Esib).
           rewrite Hq0. reflexivity.
   Qed.
 
@@ -385,14 +386,14 @@ Section Sim.
           cbn [map e_decl]. apply tp_push; [eapply nth_error_In; eauto|].
           destruct Htp as [_ Htp]. exact Htp.
       + cbn [tl_of]. rewrite app_res_nil. cbn [Ktop e_decl e_occ].
-        rewrite (Kopen_sibling q b [] us nq iq kq k Hqn Ek). rewrite app_nil_r, Hqn. reflexivity.
+        rewrite (Kopen_sibling q b (e_decl top) k [] us nq iq kq k Hqn Ek). rewrite app_nil_r, Hqn. reflexivity.
     - apply Nat.ltb_ge in Esib.
       destruct (rec_done_K b q None us nq iq kq Hqn Hwq Hop') as (stk' & tgt' & Hr & Hinv & HK).
       + destruct Htp as [_ Htp]. exact Htp.
       + intros H. congruence.
       + exact Hqbot.
       + rewrite Hr. split; [exact Hinv|]. rewrite HK. cbn [tl_of]. rewrite app_res_nil.
-        rewrite (Kopen_last q b [] us nq iq kq Hqn Esib). rewrite app_nil_r. reflexivity.
+        rewrite (Kopen_last q b (e_decl top) [] us nq iq kq Hqn Esib). rewrite app_nil_r. reflexivity.
   Qed.
 
   (* ---- a match: the frame gets its node; push the first child or finish the instance ------------------ *)
@@ -448,14 +449,14 @@ Section Sim.
   Definition std_fin (us : list unt) : term := match us with [] => TEof | _ :: _ => TErrUnexpected end.
 
   Lemma Ktop_single : forall top us,
-    InvS [top] -> Ktop [top] us = ([], fin us).
+    InvS [top] -> Ktop [top] us = ([], fin (e_decl top) us).
   Proof.
     intros top us (_ & _ & _ & _ & Hlt & Hmin). cbn [Ktop].
     rewrite mbind_occ_S, Hlt, Hmin. reflexivity.
   Qed.
 
   Lemma hstep_K : forall st, InvS (m_stk st) -> m_tgt st = None ->
-    (length (m_stk st) <= 1 -> fin (m_rest st) = std_fin (m_rest st)) ->
+    (forall top, m_stk st = [top] -> fin (e_decl top) (m_rest st) = std_fin (m_rest st)) ->
     match hstep try_leaf st with
     | Cont st' => InvS (m_stk st') /\ Kst st' = Kst st
     | Ret (OTerm t) _ => Kst st = ([], t)
@@ -467,7 +468,7 @@ Section Sim.
     destruct stk as [|top opens]; [destruct Hinv|].
     destruct opens as [|q b].
     - (* only the root frame is left *)
-      cbn [length]. rewrite (Ktop_single top us Hinv), Hfin by (cbn; lia).
+      cbn [length]. rewrite (Ktop_single top us Hinv), (Hfin top eq_refl).
       destruct us; reflexivity.
     - cbn [length].
       assert (Hlen : (S (S (length b)) <=? 1) = false) by (apply Nat.leb_gt; lia).
